@@ -138,16 +138,16 @@ theorem Inv.nextLevel (h : Inv g root k P [] none s) :
 /-- The invariant at the end of `bfs`, for a call in the recursive shape (`frontier = s.queue`). -/
 theorem Inv.bfs (hg : ReachGood g root) : ∀ (fuel : Nat) (s : St) (k : Nat) (P : List QE),
     Inv g root k P s.queue none { s with queue := [] } →
-    ∃ k' P', Inv g root k' P' (bfs g fuel s.queue s).queue none { (bfs g fuel s.queue s) with queue := [] }
-  | 0, s, k, P, h => ⟨k, P, by simpa [Model.Fields.bfs] using h⟩
+    ∃ k' P', (∀ e ∈ P, e ∈ P') ∧ Inv g root k' P' (bfs g fuel s.queue s).queue none { (bfs g fuel s.queue s) with queue := [] }
+  | 0, s, k, P, h => ⟨k, P, fun _ h => h, by simpa [Model.Fields.bfs] using h⟩
   | fuel + 1, s, k, P, h => by
     cases hq : s.queue with
-    | nil => exact ⟨k, P, by simpa [Model.Fields.bfs, hq] using h⟩
+    | nil => exact ⟨k, P, fun _ h => h, by simpa [Model.Fields.bfs, hq] using h⟩
     | cons qe rest =>
       rw [hq] at h
       have h1 := (Inv.processLevel hg (qe :: rest) P _ h).nextLevel
-      obtain ⟨k', P', h2⟩ := Inv.bfs hg fuel _ _ _ h1
-      exact ⟨k', P', by simpa [Model.Fields.bfs] using h2⟩
+      obtain ⟨k', P', hsub, h2⟩ := Inv.bfs hg fuel _ _ _ h1
+      exact ⟨k', P', fun e he => hsub e (List.mem_append_left _ he), by simpa [Model.Fields.bfs] using h2⟩
 
 theorem Inv.init : Inv g root 0 [] [{ sid := root, index := [], visit := true }] none { seen := [root] } := by
   refine ⟨(by intro e he; cases he), ?_, (by intro e he; cases he), ?_, ?_, ?_, ?_, ?_, ?_, ?_, ?_, by intro _ _ hc; cases hc⟩
@@ -177,12 +177,13 @@ theorem Inv.init : Inv g root 0 [] [{ sid := root, index := [], visit := true }]
 
 /-- The invariant holds when `search` returns. -/
 theorem Inv.search (hg : ReachGood g root) :
-    ∃ k P, Inv g root k P (search g root).queue none { (search g root) with queue := [] } := by
+    ∃ k P, ({ sid := root, index := [], visit := true } : QE) ∈ P ∧
+      Inv g root k P (search g root).queue none { (search g root) with queue := [] } := by
   unfold Model.Fields.search
   have h0 : Inv g root 0 [] [{ sid := root, index := [], visit := true }] none
       { ({ seen := [root] } : St) with queue := [] } := Inv.init
   have h1 := (Inv.processLevel hg _ [] _ h0).nextLevel
-  obtain ⟨k', P', h2⟩ := Inv.bfs hg (g.length + 1) _ _ _ h1
-  exact ⟨k', P', by simpa [Model.Fields.bfs] using h2⟩
+  obtain ⟨k', P', hsub, h2⟩ := Inv.bfs hg (g.length + 1) _ _ _ h1
+  exact ⟨k', P', hsub _ (by simp), by simpa [Model.Fields.bfs] using h2⟩
 
 end JsonV.Lemmas.Fields
